@@ -130,6 +130,59 @@ defaults { max_body %d
 						fmt.Sprintf("route %s headers=%d answered %d but the queue grew by %d", lm.route, total, resp.Status, grew), map[string]any{"config": cfg})
 				}
 			}
+			// header totals around the limit with several fields and repeated fields: the
+			// stored size of a field is len(name) + len(values joined by ",")
+			for _, shape := range []struct {
+				name   string
+				fields int // distinct names
+				rep    int // values per name
+			}{{"three_fields", 3, 1}, {"repeated_x2", 1, 2}, {"repeated_x4", 1, 4}, {"two_fields_repeated_x3", 2, 3}} {
+				seps := shape.fields * (shape.rep - 1)
+				for _, total := range []int{lm.hdrs - 1, lm.hdrs, lm.hdrs + 1, lm.hdrs + seps, lm.hdrs + seps + 1} {
+					names := []string{"X-Pa", "X-Pb", "X-Pc"}[:shape.fields]
+					fixed := seps
+					for _, nm := range names {
+						fixed += len(nm)
+					}
+					nvals := shape.fields * shape.rep
+					room := total - fixed
+					if room < nvals {
+						continue
+					}
+					hdr := map[string][]string{}
+					left := room
+					for fi, nm := range names {
+						for k := 0; k < shape.rep; k++ {
+							n := room / nvals
+							if fi == len(names)-1 && k == shape.rep-1 {
+								n = left
+							}
+							left -= n
+							hdr[nm] = append(hdr[nm], strings.Repeat("v", n))
+						}
+					}
+					before, _ := vlib.ListAll(a.Store)
+					req, _ := l2.NewRequest("POST", lm.route, []byte("x"), "")
+					req.Header = hdr
+					resp := l2.Do(a.Ingress, req)
+					after, _ := vlib.ListAll(a.Store)
+					c.Count("evaluations", 1)
+					c.Distinct("nontrivial", fmt.Sprintf("hdr_%s:%s:%d", shape.name, cmpClass(total, lm.hdrs), resp.Status))
+					want := 202
+					if total > lm.hdrs {
+						want = 413
+					}
+					if resp.Status != want {
+						c.Violation(vlib.Signature{"class": "header_limit_status", "want": fmt.Sprint(want), "got": fmt.Sprint(resp.Status), "rel": cmpClass(total, lm.hdrs), "shape": shape.name},
+							fmt.Sprintf("route %s max_headers=%d, %s with a stored size of %d bytes answered %d, expected %d", lm.route, lm.hdrs, shape.name, total, resp.Status, want),
+							map[string]any{"config": cfg, "headers": hdr})
+					}
+					if grew := len(after) - len(before); (resp.Status == 202) != (grew == 1) {
+						c.Violation(vlib.Signature{"class": "size_refusal_effect", "status": fmt.Sprint(resp.Status), "grew": fmt.Sprint(grew)},
+							fmt.Sprintf("route %s headers=%d (%s) answered %d but the queue grew by %d", lm.route, total, shape.name, resp.Status, grew), map[string]any{"config": cfg})
+					}
+				}
+			}
 		}
 		a.Close()
 	}
